@@ -105,7 +105,7 @@ def gen_case(rng, tier):
         "inputs": {"dgm1": A, "dgm2": B, "rep1": dgmgen.representation(rng, A),
                    "rep2": dgmgen.representation(rng, B), "prelude": prelude},
         "config": {"set_order": "sim", "modes": [rng.choice(mc.ORDER_MODES) for _ in range(k)],
-                   "warn_filter": rng.choice(mc.WARN_FILTERS), "prewarm_registry": rng.random() < 0.3},
+                   "warn_filter": rng.choice(mc.WARN_FILTERS_AND_ERROR), "prewarm_registry": rng.random() < 0.3},
         "ops": [],
     }
     if conc:
@@ -203,12 +203,18 @@ def run_case(case, sched):
         if not modes:
             raise InvalidCase("no evaluation")
         wf = cfg.get("warn_filter", "always")
-        if wf not in ("always", "default", "once", "ignore", "module"):
+        if wf not in ("always", "default", "once", "ignore", "module", "error"):
             raise InvalidCase("bad filter")
         for k, mode in enumerate(modes):
             if mode not in ("uniform", "sparse", "reverse", "insertion"):
                 raise InvalidCase("bad mode")
-            v, _, nwarn = mc.call_bottleneck(sched, A, B, False, mode, wf)
+            try:
+                v, _, nwarn = mc.call_bottleneck(sched, A, B, False, mode, wf)
+            except mc.WarnedAsError:
+                # injected fault (warnings are errors in this process): failing with the warning is acceptable, a wrong
+                # value is not; the evaluation is repeated under 'always' so that the case still decides something
+                sched.count("calls_failed_with_the_warning")
+                v, _, nwarn = mc.call_bottleneck(sched, A, B, False, mode, "always")
             sched.note("eval%d %s -> %s warn=%d" % (k, mode, v.hex() if not math.isnan(v) else "nan", nwarn))
             vals.append((v, "order#%d(%s)" % (k, mode)))
             if n_inf and wf == "always" and nwarn < 1:
